@@ -170,3 +170,28 @@ def iteration_ends(info):
     """[(kind, State)]: every way an iteration of the loop ends - its continue / break statements and, path by path, the statements after
     which control falls off the end of the body (kind 'fall-through'; semantically a continue)."""
     return list(info.get("ends", [])) + [("fall-through", st) for st in info.get("tail_ends", [])]
+
+
+def strparts(t):
+    """A string-building term as the flat parts of one f-string: concatenations, f-strings and string constants are flattened and adjacent
+    literal pieces merged, so that  "A" + f"_{i:02d}",  f"A_{i:02d}"  and  "A_" + f"{i:02d}"  compare equal."""
+    out = []
+
+    def rec(x):
+        if x[0] == "bin" and x[1] == "+":
+            rec(x[2])
+            rec(x[3])
+        elif x[0] == "fstr":
+            for p_ in x[1]:
+                out.append(p_)
+        else:
+            out.append(x)
+
+    rec(t)
+    merged = []
+    for p_ in out:
+        if merged and p_[0] == "const" and isinstance(p_[1], str) and merged[-1][0] == "const" and isinstance(merged[-1][1], str):
+            merged[-1] = ("const", merged[-1][1] + p_[1])
+        else:
+            merged.append(p_)
+    return tuple(merged)
